@@ -847,10 +847,14 @@ Section World.
       let all_custom := udedup (filter (fun k => negb (mem_ustr k prop_names)) (custom_kwargs ++ akeys custom_props)) in
       if (match cver c with V21 => negb (forallb re_prefix21 all_custom) | V20 => false end) then Err EInvalidValue else
       let toplevel_ext := if has_unreg_toplevel then usort extra else [] in   (* a Python set: order canonicalised *)
-      let order := prop_names ++ toplevel_ext ++ usort all_custom in
+      let order := prop_names ++
+                   (if vr_ext_order_sorted vr && has_unreg_toplevel then usort (udedup (extra ++ all_custom))
+                    else toplevel_ext ++ usort all_custom) in
       do r <- assign_loop c allow interop valid_refs kwargs custom_props pre order []
-                          (match all_custom with [] => false | _ => true end);
-      let '(setting, hc) := r in
+                          (if vr_flag_from_stored vr then false else match all_custom with [] => false | _ => true end);
+      let '(setting, hc0) := r in
+      (* only custom properties that made it into the object count (repaired variant) *)
+      let hc := hc0 || (vr_flag_from_stored vr && existsb (fun n => amem n setting) all_custom) in
       if existsb (fun s => sreq s && negb (amem (sname s) setting)) (cslots c) then Err EMissing else
       let defaulted := defaulted_names c setting in
       (* base _check_object_constraints: granular marking selectors *)
